@@ -204,3 +204,32 @@ func VerifSELFStrconv() {
 	nd.Observe(strconv.Itoa(int(c)), strconv.FormatInt(int64(int8(c)), 2), strconv.FormatInt(w, 10), strconv.FormatUint(uint64(w), 16))
 	nd.Observe(strconv.AppendInt([]byte("x"), int64(int16(w)), 10), fmt.Sprintf("%d|%v|%s", 3, "q", "z"))
 }
+
+func dbgMax(v, w int) int {
+	if w > v {
+		v = w
+	}
+	return v
+}
+
+func VerifSELFIfConv() {
+	a, b := nd.Int64("a"), nd.Int64("b")
+	v := int(a)
+	w := int(b)
+	r := dbgMax(v, w)
+	nd.Assert("self.ifconv.max.ge-a", r >= v)
+	nd.Assert("self.ifconv.max.ge-b", r >= w)
+	x := nd.Uint8("x")
+	y := nd.Uint8("y")
+	k := 5
+	if x != y {
+		k += 2
+	}
+	nd.Assert("self.ifconv.k", (k == 7) == (x != y))
+	s := []int{1, 2}
+	d := s[0] + 1
+	if x == y {
+		k = d
+	}
+	nd.Assert("self.ifconv.k2", nd.Or(nd.And(x == y, k == 2), nd.And(x != y, k == 7)))
+}
